@@ -1,9 +1,112 @@
-(* C06 property theorems: statements only. *)
+(* C06 property theorems: statements only, each closed by `exact`, with Print Assumptions. *)
 From Coq Require Import ZArith QArith List Bool.
 From QE Require Import Base.Num Base.LinAlg Base.Gauss C06.Model C06.Proofs.
 Import ListNotations.
+Local Open Scope Q_scope.
 
-Theorem C06_solve_checked_correct : forall n m (A B X : list (list Q)),
-  solve_checked n m A B = Some X -> meq n m (mmul n n m A X) B.
-Proof. exact solve_checked_correct. Qed.
-Print Assumptions C06_solve_checked_correct.
+(* --- Lyapunov doubling, exact, every dimension n and every number k of doubling steps --- *)
+
+(* alpha_k = A^(2^k) and gamma_k = sum_{l < 2^k} (A^l B) (A^l)' *)
+Theorem C06_lyap_doubling_closed_form : forall n (A B : list (list Q)) k,
+  meq n n (fst (lyap_iter k n A B)) (mpow n A (2 ^ k)) /\
+  meq n n (snd (lyap_iter k n A B))
+          (msum n n (2 ^ k) (fun l => mmul n n n (mmul n n n (mpow n A l) B) (mtr n n (mpow n A l)))).
+Proof. exact lyap_doubling_closed_form. Qed.
+Print Assumptions C06_lyap_doubling_closed_form.
+
+(* A gamma_k A' - gamma_k + B = alpha_k B alpha_k' *)
+Theorem C06_lyap_residual : forall n (A B : list (list Q)) k,
+  meq n n (madd n n (msub n n (mmul n n n (mmul n n n A (snd (lyap_iter k n A B))) (mtr n n A))
+                              (snd (lyap_iter k n A B))) B)
+          (mmul n n n (mmul n n n (fst (lyap_iter k n A B)) B) (mtr n n (fst (lyap_iter k n A B)))).
+Proof. exact lyap_residual. Qed.
+Print Assumptions C06_lyap_residual.
+
+(* the quantity of the stopping test: gamma_{k+1} - gamma_k = alpha_k gamma_k alpha_k' *)
+Theorem C06_lyap_step_is_tail : forall n (A B : list (list Q)) k,
+  meq n n (msub n n (snd (lyap_iter (S k) n A B)) (snd (lyap_iter k n A B)))
+          (mmul n n n (mmul n n n (fst (lyap_iter k n A B)) (snd (lyap_iter k n A B)))
+                (mtr n n (fst (lyap_iter k n A B)))).
+Proof. exact lyap_step_is_tail. Qed.
+Print Assumptions C06_lyap_step_is_tail.
+
+(* the loop as written (test, cap, ValueError) returns gamma_k for the k >= 1 at which the test fired,
+   k + 1 <= max_it: for EVERY arithmetic instance, binary64 included *)
+Theorem C06_lyap_loop_returns_iterate : forall (T : Type) (NT : Num T) tol max_it n (A B : list (list T)) k X,
+  solve_discrete_lyapunov tol max_it n A B = Some (k, X) ->
+  (1 <= k)%nat /\ X = snd (lyap_iter k n A B) /\
+  nltb tol (mmaxabsdiff n n (snd (lyap_iter k n A B)) (snd (lyap_iter (pred k) n A B))) = false /\
+  (Z.of_nat k + 1 <= max_it)%Z.
+Proof. exact (@solve_discrete_lyapunov_iterate). Qed.
+Print Assumptions C06_lyap_loop_returns_iterate.
+
+(* exact solver: closed form of the returned matrix and its residual A X A' - X + B = A^(2^k) B A'^(2^k) *)
+Theorem C06_lyap_solver_spec : forall tol max_it n (A B : list (list Q)) k X,
+  solve_discrete_lyapunov tol max_it n A B = Some (k, X) ->
+  (1 <= k)%nat /\ (Z.of_nat k + 1 <= max_it)%Z /\
+  meq n n X (msum n n (2 ^ k) (fun l => mmul n n n (mmul n n n (mpow n A l) B) (mtr n n (mpow n A l)))) /\
+  meq n n (madd n n (msub n n (mmul n n n (mmul n n n A X) (mtr n n A)) X) B)
+          (mmul n n n (mmul n n n (mpow n A (2 ^ k)) B) (mtr n n (mpow n A (2 ^ k)))).
+Proof. exact lyap_solver_spec. Qed.
+Print Assumptions C06_lyap_solver_spec.
+
+Example lyap_solver_example :
+  solve_discrete_lyapunov (1 # 1000000000000000) 50 2 [[0; 1]; [0; 0]] [[1; 0]; [0; 1]]
+  = Some (2%nat, [[2; 0]; [0; 1]]).
+Proof. vm_compute. reflexivity. Qed.
+
+(* --- Riccati structured doubling --- *)
+
+(* the loop as written returns H_k + gamma I for an iterate of the doubling step (every instance) *)
+Theorem C06_riccati_loop_returns_iterate : forall (T : Type) (NT : Num T) tol max_iter ns nc gamma
+    (A B Q R N : list (list T)) k X,
+  solve_discrete_riccati tol max_iter ns nc gamma A B Q R N = RiccOk k X ->
+  (1 <= k)%nat /\
+  exists AGH0 Ak Gk Hk, ricc_init ns nc gamma A B Q R N = Some AGH0 /\
+     ricc_iter k ns AGH0 = Some (Ak, Gk, Hk) /\ X = madd ns ns Hk (mscale ns ns gamma (mid ns)).
+Proof. exact (@solve_discrete_riccati_iterate). Qed.
+Print Assumptions C06_riccati_loop_returns_iterate.
+
+(* scalar systems: a solution x of the Riccati equation satisfies, shifted by gamma, the doubled
+   equation y (1 + G_k y) = A_k^2 y + H_k (1 + G_k y) for every k; gamma drops out of the answer *)
+Theorem C06_riccati_scalar_fixed_point_transfer_partial : forall g a b q r nn x k AGH0 Ak Gk Hk,
+  ricc_init 1 1 g [[a]] [[b]] [[q]] [[r]] [[nn]] = Some AGH0 ->
+  ricc_iter k 1 AGH0 = Some (Ak, Gk, Hk) ->
+  ~ r + b * b * x == 0 ->
+  a * a * x - (nn + b * x * a) * (nn + b * x * a) / (r + b * b * x) + q - x == 0 ->
+  let y := x - g in
+  y * (1 + get Gk 0 0 * y) == get Ak 0 0 * get Ak 0 0 * y + get Hk 0 0 * (1 + get Gk 0 0 * y).
+Proof. exact riccati_scalar_fixed_point_transfer. Qed.
+Print Assumptions C06_riccati_scalar_fixed_point_transfer_partial.
+
+Theorem C06_riccati_scalar_limit_solves_partial : forall g a b q r nn x k AGH0 Ak Gk Hk,
+  ricc_init 1 1 g [[a]] [[b]] [[q]] [[r]] [[nn]] = Some AGH0 ->
+  ricc_iter k 1 AGH0 = Some (Ak, Gk, Hk) ->
+  ~ r + b * b * x == 0 ->
+  a * a * x - (nn + b * x * a) * (nn + b * x * a) / (r + b * b * x) + q - x == 0 ->
+  get Ak 0 0 == 0 -> ~ 1 + get Gk 0 0 * (x - g) == 0 ->
+  x == get (madd 1 1 Hk (mscale 1 1 g (mid 1))) 0 0.
+Proof. exact riccati_scalar_limit_solves. Qed.
+Print Assumptions C06_riccati_scalar_limit_solves_partial.
+
+(* hypotheses are satisfiable: a = b = r = 1, q = 1/2, n = 0 has the rational solution x = 1 *)
+Example riccati_scalar_example :
+  (exists AGH0 AGH3, ricc_init 1 1 (1#2) [[1]] [[1]] [[1#2]] [[1]] [[0]] = Some AGH0 /\
+                     ricc_iter 3 1 AGH0 = Some AGH3) /\
+  ~ 1 + 1 * 1 * 1 == 0 /\
+  1 * 1 * 1 - (0 + 1 * 1 * 1) * (0 + 1 * 1 * 1) / (1 + 1 * 1 * 1) + (1#2) - 1 == 0.
+Proof.
+  split; [|split; [discriminate|reflexivity]].
+  eexists. eexists. split; vm_compute; reflexivity.
+Qed.
+
+(* general dimension: stated, NOT proved (needs the push-through identities for (I + G Y)^-1);
+   decided by the sampled correspondence + mpmath oracle only *)
+Definition C06_riccati_fixed_point_transfer_full : Prop :=
+  forall ns nc g (A B Q R N X : list (list Q)) k AGH0 Ak Gk Hk Res,
+  ricc_init ns nc g A B Q R N = Some AGH0 ->
+  ricc_iter k ns AGH0 = Some (Ak, Gk, Hk) ->
+  ricc_residual_mat ns nc A B Q R N X = Some Res -> meq ns ns Res (mzero ns ns) ->
+  let Y := msub ns ns X (mscale ns ns g (mid ns)) in
+  forall W, meq ns ns (mmul ns ns ns (madd ns ns (mid ns) (mmul ns ns ns Gk Y)) W) Ak ->
+  meq ns ns Y (madd ns ns (mmul ns ns ns (mmul ns ns ns (mtr ns ns Ak) Y) W) Hk).
